@@ -150,26 +150,29 @@ fn signer_subpackets(key: &dyn KeyDetails) -> SubpacketConfig {
     }
 }
 
+/// Where the builder writes: a writer, or a path handed to `to_file` / `to_armored_file`.
+pub enum Sink<W: Write> {
+    Writer(W),
+    File(std::path::PathBuf),
+}
+
 fn finish<R: Read, E: Encryption, W: Write>(
     mut b: MessageBuilder<'_, R, E>,
     cfg: &MsgCfg,
-    out: W,
+    out: Sink<W>,
     seed: u64,
 ) -> pgp::errors::Result<()> {
     let _ = &mut b;
     let rng = crate::engine::rng(seed ^ 0xF1);
-    if cfg.armor {
-        let mut out = out;
-        b.to_armored_writer(
-            rng,
-            ArmorOptions {
-                headers: None,
-                include_checksum: cfg.checksum,
-            },
-            &mut out,
-        )
-    } else {
-        b.to_writer(rng, out)
+    let opts = ArmorOptions {
+        headers: None,
+        include_checksum: cfg.checksum,
+    };
+    match (out, cfg.armor) {
+        (Sink::Writer(mut out), true) => b.to_armored_writer(rng, opts, &mut out),
+        (Sink::Writer(out), false) => b.to_writer(rng, out),
+        (Sink::File(path), true) => b.to_armored_file(rng, path, opts),
+        (Sink::File(path), false) => b.to_file(rng, path),
     }
 }
 
@@ -179,6 +182,21 @@ pub fn build<R: Read, W: Write>(
     source: R,
     bytes_for_mode0: Option<Vec<u8>>,
     out: W,
+    seed: u64,
+) -> pgp::errors::Result<()> {
+    build_sink(cfg, source, bytes_for_mode0, Sink::Writer(out), seed)
+}
+
+/// The message written through `to_file` / `to_armored_file` onto `path`.
+pub fn build_file(cfg: &MsgCfg, payload: &[u8], path: &std::path::Path, seed: u64) -> pgp::errors::Result<()> {
+    build_sink(cfg, payload, Some(payload.to_vec()), Sink::<Vec<u8>>::File(path.to_path_buf()), seed)
+}
+
+pub fn build_sink<R: Read, W: Write>(
+    cfg: &MsgCfg,
+    source: R,
+    bytes_for_mode0: Option<Vec<u8>>,
+    out: Sink<W>,
     seed: u64,
 ) -> pgp::errors::Result<()> {
     let certs: Vec<_> = cfg.signers.iter().map(|(k, _)| cert(*k, 1)).collect();
@@ -397,8 +415,38 @@ pub fn open<'a>(
     seed: u64,
     use_session_key: bool,
 ) -> pgp::errors::Result<Message<'a>> {
+    open_mode(cfg, msg, seed, use_session_key, false)
+}
+
+/// `open` with the SEIPDv1 read mode chosen: `v1_streaming` = `Seipdv1ReadMode::Streaming`
+/// (through `decrypt_the_ring`, the only entry point that takes options).
+pub fn open_mode<'a>(
+    cfg: &MsgCfg,
+    msg: Message<'a>,
+    seed: u64,
+    use_session_key: bool,
+    v1_streaming: bool,
+) -> pgp::errors::Result<Message<'a>> {
     let mut msg = msg;
-    if cfg.enc != Enc::None {
+    if cfg.enc != Enc::None && v1_streaming {
+        let opts = pgp::composed::DecryptionOptions::new().set_seipdv1_read_mode(pgp::types::Seipdv1ReadMode::Streaming);
+        let pw = Password::from(PASSWORDS[0]);
+        let c = match cfg.esks.first() {
+            Some(EskSpec::Key(k, _)) => Some(cert(*k, 3)),
+            _ => None,
+        };
+        let key_pw = Password::empty();
+        let mut ring = pgp::composed::TheRing { decrypt_options: opts, ..Default::default() };
+        if use_session_key || cfg.esks.is_empty() {
+            ring.session_keys = vec![session_key(cfg, seed).expect("session key")];
+        } else if let Some(c) = &c {
+            ring.secret_keys = vec![&**c];
+            ring.key_passwords = vec![&key_pw];
+        } else {
+            ring.message_password = vec![&pw];
+        }
+        msg = msg.decrypt_the_ring(ring, true)?.0;
+    } else if cfg.enc != Enc::None {
         msg = if use_session_key || cfg.esks.is_empty() {
             msg.decrypt_with_session_key(session_key(cfg, seed).expect("session key"))?
         } else {
@@ -429,12 +477,23 @@ pub fn read_back(
     how: Pull,
     use_session_key: bool,
 ) -> Result<ReadBack, String> {
+    read_back_mode(cfg, bytes, seed, how, use_session_key, false)
+}
+
+pub fn read_back_mode(
+    cfg: &MsgCfg,
+    bytes: &[u8],
+    seed: u64,
+    how: Pull,
+    use_session_key: bool,
+    v1_streaming: bool,
+) -> Result<ReadBack, String> {
     let msg = if cfg.armor {
         Message::from_armor(bytes).map_err(|e| format!("from_armor: {e}"))?.0
     } else {
         Message::from_bytes(bytes).map_err(|e| format!("from_bytes: {e}"))?
     };
-    let mut msg = open(cfg, msg, seed, use_session_key).map_err(|e| format!("open: {e}"))?;
+    let mut msg = open_mode(cfg, msg, seed, use_session_key, v1_streaming).map_err(|e| format!("open: {e}"))?;
     let data = pull(&mut msg, how).map_err(|e| format!("read: {e}"))?;
     let hdr = msg
         .literal_data_header()
